@@ -59,6 +59,10 @@ pub enum LinkFault {
     /// the step additionally authorises the layout *owner's* key (one of the keys the layout is verified with), which
     /// the key table does not define; the owner signs the replacement link and files it under the owner's prefix
     ByOwnerKeyMissingFromTable,
+    /// two keys of the key table whose ids share the eight characters a file name carries: one becomes a functionary
+    /// of this step, the other (authorised for no step) signs the evidence, filed under its - that is also the
+    /// functionary's - prefix
+    ByCollidingTableKey(u8),
 }
 
 #[derive(Clone, Debug, Serialize, Deserialize)]
@@ -146,6 +150,24 @@ pub fn apply_faults(spec: &Spec) -> (World, Option<serde_json::Value>) {
                     w.layout.steps[sidx].pubkeys.push(owner.clone());
                     w.links[i] = LinkFile { step: step.name.clone(), filed_under: owner.clone(), name_field: None, symlink_store: false, body: Body::Link { link: base_link, sigs: vec![SigEntry::good(&owner)], tamper: None } };
                 }
+            }
+            LinkFault::ByCollidingTableKey(n) => {
+                let (mut p, mut q) = collider_pair(*n);
+                if n & 4 != 0 {
+                    std::mem::swap(&mut p, &mut q);
+                }
+                // one file name, one file: only when nothing else of this step is filed under that prefix
+                if w.links.iter().any(|f| f.step == step.name && f.name_field.clone().unwrap_or_else(|| prefix8(&f.filed_under)) == prefix8(&q)) {
+                    continue;
+                }
+                let sidx = *si as usize % nsteps;
+                w.layout.steps[sidx].pubkeys.push(p.clone());
+                for k in [&p, &q] {
+                    if !w.layout.keys.iter().any(|t| key_id_str(t) == key_id_str(k)) {
+                        w.layout.keys.push(k.clone());
+                    }
+                }
+                w.links[i] = LinkFile { step: step.name.clone(), filed_under: q.clone(), name_field: None, symlink_store: false, body: Body::Link { link: base_link, sigs: vec![SigEntry::good(&q)], tamper: None } };
             }
             LinkFault::ByStranger(n) => {
                 let s = stranger(n.wrapping_add(20));
@@ -307,6 +329,7 @@ fn fault_strategy() -> BoxedStrategy<LinkFault> {
         2 => any::<u8>().prop_map(LinkFault::SymlinkUnderForeignPrefix),
         1 => Just(LinkFault::SymlinkUnderOwnPrefix),
         2 => Just(LinkFault::ByOwnerKeyMissingFromTable),
+        2 => any::<u8>().prop_map(LinkFault::ByCollidingTableKey),
     ]
     .boxed()
 }
@@ -320,7 +343,7 @@ impl Property for C02 {
         "Generated: valid worlds with 1-4 steps, thresholds 0-3, functionary pool of 2-5 keys, every assignment of keys to step.pubkeys, then \
          1-3 faults on chosen (step, link) files: removed; signed by another functionary but filed under this key's prefix; tampered after \
          signing; replaced by a valid link of a functionary authorised only for other steps; of a key authorised in the step but absent \
-         from the key table; of a stranger; filed under a name whose id field is dots plus only the first 0-7 characters of the signer's id; entered as a symbolic link named after another key's prefix that points to the properly named document elsewhere; replaced by a link attributed to the same key material declared (in key table and pubkeys) with an unimplemented signature scheme; multiply signed; signature by another key labelled with this key's id; corrupted signature; \
+         from the key table; of a stranger; signed by a key of the key table that is authorised for no step while a *different* key whose id starts with the same eight characters (a pair found by search) is a functionary of the step; filed under a name whose id field is dots plus only the first 0-7 characters of the signer's id; entered as a symbolic link named after another key's prefix that points to the properly named document elsewhere; replaced by a link attributed to the same key material declared (in key table and pubkeys) with an unimplemented signature scheme; multiply signed; signature by another key labelled with this key's id; corrupted signature; \
          garbage; aliased key-table entry (table files key B under id(A), B signs labelled id(A)); evidence replaced by a valid \
          sub-layout of a functionary who is not authorised for the step / missing from the key table. Enumerated: 2 steps x 2 keys, every \
          (step,key) file in {absent, valid by that key, signed by the other key under this name, tampered, garbage}: 625 populations. \
@@ -389,10 +412,19 @@ impl Property for C02 {
         let mut prefixes = std::collections::BTreeMap::new();
         for k in w.layout.keys.iter().chain(w.links.iter().map(|f| &f.filed_under)).chain(w.layout.steps.iter().flat_map(|s| s.pubkeys.iter())) {
             if let Some(prev) = prefixes.insert(prefix8(k), key_id_str(k)) {
-                if prev != key_id_str(k) {
+                // (the searched-for colliding pairs are deliberate; see ByCollidingTableKey)
+                if prev != key_id_str(k) && collider_of(k).map(|c| key_id_str(&c) != prev).unwrap_or(true) {
                     o.class("discarded:prefix-collision");
                     return o;
                 }
+            }
+        }
+        // one file name, one file
+        let mut names = std::collections::BTreeSet::new();
+        for f in &w.links {
+            if !names.insert((f.step.clone(), f.name_field.clone().unwrap_or_else(|| prefix8(&f.filed_under)))) && collider_of(&f.filed_under).is_some() {
+                o.class("discarded:two-files-one-name");
+                return o;
             }
         }
         let now = now_secs();
